@@ -25,6 +25,7 @@ func init() {
 		c02Jsonp(c)
 		codecCallTable(c, "C02.4c")
 		c02DeliveryUnconditional(c)
+		payloadNotTruncated(c, "C02.12")
 		c10BoundedBody(c, "C02.9")                                                     // the whole body below the limit reaches OnData: the read limit is MaxHttpBufferSize() itself, not a smaller or unrelated quantity
 		c03AdmittedStates(c, "C02.1b", map[string]bool{"onPacket/emit(packet)": true}) // delivered whenever (and only when) open
 		// WebTransport frames: the kind and the bytes of an inbound message come from the framing layer
@@ -140,7 +141,7 @@ func c02CloseStopsPayload(c *core.Ctx) {
 		if rs, ok := n.(*ast.RangeStmt); ok && loop == nil {
 			if d, k := u.SingleDef(rs.X); k {
 				if te, isT := d.(*core.TupleElem); isT && te.Index == 0 {
-					if ce, isC := ast.Unparen(te.X).(*ast.CallExpr); isC && hasSuffixAny(u.CalleeKey(ce), ".DecodePayload") {
+					if ce, isC := ast.Unparen(te.X).(*ast.CallExpr); isC && hasSuffixAny(u.CalleeKey(ce), ".DecodePayload", ".decodePayload") {
 						loop = rs
 					}
 				}
@@ -553,4 +554,123 @@ func c02DeliveryUnconditional(c *core.Ctx) {
 		}
 	}
 	c.Need(R, "onMessage call sites in the reader loops", n, 4)
+}
+
+// payloadNotTruncated (C02.12 = C11.12 = C10.7) — the payload decoder of the
+// pinned parser (engine.io-go-parser, parserv4.DecodePayload) cuts a revision-4
+// payload with a bufio.Scanner that keeps the default token limit (64 KiB): a
+// payload holding one larger packet yields no packet at all and an error the
+// transport discards — the POST is acknowledged with "ok" and its messages are
+// lost, although they are far below maxHttpBufferSize. While that is so, the
+// repository may hand a payload to Parser.DecodePayload only where the
+// revision is established not to be 4, and must cut revision-4 payloads
+// itself (at the parser's separator, one DecodePacket per piece).
+func payloadNotTruncated(c *core.Ctx, R string) {
+	c.Rule(R, "payload decoding is not bounded below maxHttpBufferSize: if parserv4.DecodePayload (the dependency, inspected on every run) still scans with a default-limit bufio.Scanner, every call of Parser.DecodePayload in the repository lies on an edge where Protocol() != 4 is established, and polling's own revision-4 decoder cuts the payload at parser.SEPARATOR and decodes every piece with DecodePacket inside a loop, returning the packets decoded")
+	bounded := false
+	var where token.Pos
+	if pk := c.P.Dep("github.com/zishang520/engine.io-go-parser/parser"); pk != nil {
+		for _, f := range pk.Syntax {
+			for _, d := range f.Decls {
+				fd, ok := d.(*ast.FuncDecl)
+				if !ok || fd.Body == nil || fd.Name.Name != "DecodePayload" || fd.Recv == nil {
+					continue
+				}
+				if !strings.Contains(core.ExprString(fd.Recv.List[0].Type), "parserv4") {
+					continue
+				}
+				scanners, buffered := 0, 0
+				ast.Inspect(fd.Body, func(n ast.Node) bool {
+					if ce, ok := n.(*ast.CallExpr); ok {
+						if se, ok := ce.Fun.(*ast.SelectorExpr); ok {
+							if fn, _ := pk.TypesInfo.Uses[se.Sel].(*types.Func); fn != nil && fn.Pkg() != nil && fn.Pkg().Path() == "bufio" {
+								switch fn.Name() {
+								case "NewScanner":
+									scanners++
+									where = ce.Pos()
+								case "Buffer":
+									buffered++
+								}
+							}
+						}
+					}
+					return true
+				})
+				bounded = scanners > 0 && buffered == 0
+			}
+		}
+	} else {
+		c.Undecided(R, "engine.io-go-parser/parser", "the parser package is not among the loaded dependencies")
+		return
+	}
+	c.Check(R, "dependency/parserv4.DecodePayload-inspected", token.NoPos, true, keyf("default-limit Scanner in the dependency: %v (%s)", bounded, c.P.PosStr(where)))
+	not4 := func(u *core.Unit, br core.Branch) int {
+		cmp, ok := u.BranchCmp(br)
+		if !ok || cmp.Val == nil {
+			return 0
+		}
+		_, key := u.AsCall(cmp.X)
+		if !strings.HasSuffix(key, ".Protocol") {
+			return 0
+		}
+		v := cmp.Val.ExactString()
+		switch {
+		case v == "4" && cmp.Op == token.NEQ, v == "3" && cmp.Op == token.EQL:
+			return 1
+		case v == "4" && cmp.Op == token.EQL, v == "3" && cmp.Op == token.NEQ:
+			return -1
+		}
+		return 0
+	}
+	n := 0
+	for _, u := range c.P.Units {
+		g := u.Graph()
+		for _, cl := range u.Calls() {
+			if cl.Name != "DecodePayload" || cl.Callee == nil || cl.Callee.Pkg() == nil || !strings.HasSuffix(cl.Callee.Pkg().Path(), "engine.io-go-parser/parser") {
+				continue
+			}
+			n++
+			c.Check(R, keyf("%s/DecodePayload-only-when-not-revision-4", u.Key), cl.Pos(), !bounded || g.GuardedBy(cl.Loc, not4),
+				"a revision-4 payload handed to the parser is dropped whole when one packet reaches 64 KiB (Scanner token limit); the error is not reported")
+		}
+	}
+	c.Need(R, "calls of Parser.DecodePayload in the repository", n, 1)
+	if !bounded {
+		return
+	}
+	// the repository's own revision-4 decoder
+	u := c.Fn(R, "transports.(*polling).decodePayload")
+	if u == nil {
+		return
+	}
+	g := u.Graph()
+	info := u.Info()
+	okCut, okDecode, okAppend := false, false, false
+	for _, cl := range u.Calls() {
+		if cl.Key == "bytes.IndexByte" && len(cl.Expr.Args) == 2 {
+			if v, ok := core.ConstInt(info, cl.Arg(1)); ok && v == 0x1e {
+				okCut = true
+			}
+		}
+		if cl.Name == "DecodePacket" && !g.GuardedBy(cl.Loc, not4) {
+			// inside a loop: the call can follow itself
+			if g.CanFollow(cl.Loc, cl.Loc) || g.Reach(g.After(cl.Loc), func(s core.State) bool { return s.B == cl.Loc.B && s.I == cl.Loc.I }, nil, nil) {
+				okDecode = true
+			}
+		}
+		if cl.Callee == nil && cl.Name == "append" {
+			okAppend = true
+		}
+	}
+	c.Check(R, "transports.(*polling).decodePayload/cuts-at-separator,DecodePacket-per-piece", u.Pos(), okCut && okDecode && okAppend,
+		keyf("bytes.IndexByte(…, 0x1e): %v; DecodePacket in the loop: %v; packets collected: %v", okCut, okDecode, okAppend))
+	used := false
+	if od := c.Fn(R, "transports.(*polling).OnData"); od != nil {
+		for _, cl := range od.Calls() {
+			if cl.Key == "transports.(*polling).decodePayload" {
+				used = true
+			}
+		}
+		c.Check(R, "transports.(*polling).OnData/uses-decodePayload", od.Pos(), used, "OnData decodes through the repository's decoder")
+	}
 }
